@@ -397,7 +397,7 @@ def nested_gap(rng, count):
         inner = [J(), J(0)] if rng.random() < 0.4 else [J()]
         if with_forever:
             inner.append(J())
-        deep = rng.random() < 0.3
+        deep = rng.random() < 0.45
         nested = S([S(inner)]) if deep else S(inner)
         others = rng.randint(1, 2)
         kids = [nested] + [J() for _ in range(others)]
@@ -421,7 +421,14 @@ def nested_gap(rng, count):
         for i in range(n):
             if kind[i] == "job" and parent[i] == 1:
                 dur[i] = rng.randint(gap_lo, gap_hi) if not _reqs_everything(shape, i) else rng.choice([0, 1])
-        sc = _mk(rng, shape, dur=dur, sdur=sdur, cdur=cdur, forever=forever, stmo=stmo,
+        tmo = [-1] * n
+        if deep and rng.random() < 0.6:
+            # the middle scheduler expires while the inner one is winding down
+            mid = [i for i in range(n) if kind[i] == "sched"][1]
+            tmo[mid] = x + rng.choice([0, 1, 1, 2])
+            for i in members:
+                cdur[i] = max(cdur[i], rng.choice([2, 3]))
+        sc = _mk(rng, shape, dur=dur, sdur=sdur, cdur=cdur, forever=forever, stmo=stmo, tmo=tmo,
                  crit=[rng.random() < 0.3 for _ in range(n)],
                  win=[rng.choice([0, 0, 0, 2]) if kind[i] == "sched" else 0 for i in range(n)])
         sc["harness"]["k"] = [rng.choice([0, 0, 1, 2]) for _ in range(n)]
@@ -478,6 +485,9 @@ def scenarios(prop, count, seed):
         hrn = sc["harness"]
         n = sc["cfg"]["n"]
         hrn["prep"] = rng.choice([0, 0, 0, 1, 2, 3, 4])
+        hrn["emptymsg"] = rng.random() < 0.3
+        if prop in ("C06", "C03", "C14") and rng.random() < 0.2:
+            hrn["verbose"] = True
         if rng.random() < stall_p:
             hrn["stall"] = [rng.choice([0, 0, 1, 2, 3]) if sc["cfg"]["kind"][j] == "job" else 0
                             for j in range(n)]
